@@ -4,7 +4,8 @@ EXTENDS Modules, Json, TLCExt
 
 FlatDirs == {<<>>}
 Flags(i) == [x \in 1..Len(mods[i].decls) |-> mods[i].decls[x].pub]
-Imps(i) == SetToSortSeq({ p[2] : p \in { q \in ImportPairs(mods) : q[1] = i } }, <)
+\* the import lines as written (a module may be named twice), as module numbers
+Imps(i) == [x \in 1..Len(mods[i].imports) |-> CHOOSE j \in 1..Len(mods) : PathOf(mods, j) = mods[i].imports[x]]
 \* one line per terminal state: the input, the rule's visible sets, and ONE of the declaration
 \* sequences the model allows (the replay groups the lines of one input)
 EmitCase == phase = "end" =>
